@@ -77,6 +77,124 @@ func c13(c *core.Check) {
 	for _, k := range []string{"M1-count-loop", "M1-loop-bound", "M2-write-filter", "M2-read-filter", "M3-zero-only-required", "M4-propagation"} {
 		c.Min(k, 1)
 	}
+	c13keyKinds(c)
+}
+
+// c13keyKinds (M5): the generator and the mask library must classify map key types identically. The templates pick the
+// query (Int / Str / all-or-nothing Int(0)) with IsIntType / IsStrType on the key's category; the library decides how a
+// map mask is stored (FtIntMap / FtStrMap / scalar) in switchFt from the key's type name. A key kind that one side treats
+// as string-keyed and the other as "other" is filtered with the wrong query and the header count is not adjusted.
+func c13keyKinds(c *core.Check) {
+	gpk := c.Prog.Pkg(golangRel)
+	gen := map[string]string{} // category -> int | str
+	for fn, kind := range map[string]string{"IsIntType": "int", "IsStrType": "str"} {
+		fd := c.Prog.FuncDecl(golangRel, fn)
+		if fd == nil {
+			c.Unknown("M5-key-kind-agreement", golangRel+"."+fn, "", "predicate missing")
+			return
+		}
+		sw := firstSwitchOn(fd, "Category")
+		if sw == nil {
+			c.Unknown("M5-key-kind-agreement", golangRel+"."+fn, c.Prog.Rel(fd.Pos()), "predicate is not a switch over the category")
+			return
+		}
+		arms, _ := switchArms(gpk.TypesInfo, sw)
+		for _, a := range arms {
+			ret := false
+			for _, s := range a.Body {
+				if rs, ok := s.(*ast.ReturnStmt); ok && len(rs.Results) == 1 && rules.ExprString(rs.Results[0]) == "true" {
+					ret = true
+				}
+			}
+			if ret {
+				for _, n := range a.Names {
+					gen[strings.TrimPrefix(n, "Category_")] = kind
+				}
+			}
+		}
+	}
+	// library side
+	fd := c.Prog.FuncDecl("fieldmask", "switchFt")
+	if fd == nil {
+		c.Unknown("M5-key-kind-agreement", "fieldmask.switchFt", "", "missing")
+		return
+	}
+	fpk := c.Prog.Pkg("fieldmask")
+	lib := map[string]string{} // type name -> int | str
+	enumInt := false
+	ast.Inspect(fd.Body, func(n ast.Node) bool {
+		switch x := n.(type) {
+		case *ast.SwitchStmt:
+			if x.Tag == nil || !strings.Contains(rules.ExprString(x.Tag), "GetName") {
+				return true
+			}
+			for _, cc := range x.Body.List {
+				cl := cc.(*ast.CaseClause)
+				kind := ""
+				for _, s := range cl.Body {
+					if rs, ok := s.(*ast.ReturnStmt); ok && len(rs.Results) == 1 {
+						switch rules.ExprString(rs.Results[0]) {
+						case "FtIntMap":
+							kind = "int"
+						case "FtStrMap":
+							kind = "str"
+						}
+					}
+				}
+				for _, e := range cl.List {
+					if s, ok := rules.ConstString(fpk.TypesInfo, e); ok && kind != "" {
+						lib[s] = kind
+					}
+				}
+			}
+		case *ast.IfStmt:
+			if strings.Contains(rules.ExprString(x.Cond), "IsEnum()") {
+				for _, s := range x.Body.List {
+					if rs, ok := s.(*ast.ReturnStmt); ok && len(rs.Results) == 1 && rules.ExprString(rs.Results[0]) == "FtIntMap" {
+						enumInt = true
+					}
+				}
+			}
+		}
+		return true
+	})
+	// IDL type name -> category, from the resolver's own table
+	spk := c.Prog.Pkg("semantic")
+	nameCat := map[string]string{}
+	if init := pkgVarInit(spk, "categoryMap"); init != nil {
+		if cl, ok := init.(*ast.CompositeLit); ok {
+			for _, e := range cl.Elts {
+				kv := e.(*ast.KeyValueExpr)
+				if s, ok := rules.ConstString(spk.TypesInfo, kv.Key); ok {
+					nameCat[s] = strings.TrimPrefix(constName(spk.TypesInfo, kv.Value), "Category_")
+				}
+			}
+		}
+	}
+	if len(nameCat) < 9 || len(lib) == 0 {
+		c.Unknown("M5-key-kind-agreement", "semantic.categoryMap|fieldmask.switchFt", "", "tables not found")
+		return
+	}
+	libCat := map[string]string{}
+	for n, k := range lib {
+		if cat, ok := nameCat[n]; ok {
+			libCat[cat] = k
+		}
+	}
+	if enumInt {
+		libCat["Enum"] = "int"
+	}
+	for _, cat := range valueCategories {
+		g, l := gen[cat], libCat[cat]
+		if g == "" {
+			g = "other"
+		}
+		if l == "" {
+			l = "other"
+		}
+		c.Decide(g == l, "M5-key-kind-agreement", "map key "+cat, "", "generator and mask library both treat "+cat+" keys as "+g,
+			fmt.Sprintf("map keys of category %s are %s-keyed for the mask library (switchFt) but %s-keyed for the generated code (IsIntType/IsStrType): the mask is queried with the wrong key kind and filtered maps get a wrong header or lose selected entries", cat, l, g))
+	}
 }
 
 // maskQuery recognises `X.Field(..)`, `X.Int(..)`, `X.Str(..)` calls: returns receiver and method.
